@@ -454,6 +454,11 @@ def _fault_work(args):
         drv.do_save(w, op, path=probe)
     W = fp0.n
     names = list(fp0.log)
+    # what a clean save leads to (reference for "fault, then retry")
+    try:
+        clean = {kk: v[0] for kk, v in load_entries(probe).items()}
+    except BaseException:
+        clean = None
     os.remove(probe)
     runs = 0
     for k in range(1, W + 1):
@@ -507,6 +512,33 @@ def _fault_work(args):
                              witness=wit, detail=f"entry {kk} altered after "
                              f"a failure at write call {k} ({names[k-1]})",
                              case=case, kind="fault"))
+        # retry the interrupted save: the container must end up as after
+        # a save that never failed, with every earlier rating readable
+        if clean is not None:
+            exc2 = drv.do_save(w, op, path=trial)
+            runs += 1
+            try:
+                post2 = {kk: v[0] for kk, v in load_entries(trial).items()}
+                if post2 != clean:
+                    bad = sorted(str(kk) for kk in set(post2) | set(clean)
+                                 if post2.get(kk) != clean.get(kk))
+                    out.append(V(
+                        PROP, "fault-entry-lost", site="save_hdf5-retry",
+                        witness=wit, detail=f"after a failure at write call "
+                        f"{k} ({names[k-1]}) and a retry of the same save "
+                        f"(retry raised: {exc2!r}) the container differs "
+                        f"from a clean save in entries {bad}", case=case,
+                        kind="fault"))
+            except BaseException as e:
+                if isinstance(e, (KeyboardInterrupt, SystemExit)):
+                    raise
+                out.append(V(
+                    PROP, "fault-unreadable", site="save_hdf5-retry",
+                    witness=wit, detail=f"after a failure at write call {k} "
+                    f"({names[k-1]}) of {op} and a retry of the same save "
+                    f"(retry raised: {exc2!r}) load_hdf5 raises {e!r}: "
+                    "earlier ratings are unreadable", case=case,
+                    kind="fault"))
         os.remove(trial)
     return out, runs, W
 
@@ -540,7 +572,8 @@ def run(tier):
         for h, _ in seen.values():
             if 1 <= len(h) <= fdepth:
                 if tier == "quick" and (name != "saves" or
-                                        drv.ops[h[0]][3] != "u1"):
+                                        drv.ops[h[0]][3] != "u1" or
+                                        drv.ops[h[0]][2] == "f3"):
                     continue
                 for oi in range(len(drv.ops)):
                     fjobs.append((name, h, oi))
